@@ -307,6 +307,23 @@ def _run(ctx):
             for p in ps:
                 lp = [e for e in p.eff if e[0] == 'loop']
                 r = p.ret
+                # the same conversion written as `parts.into_iter().map(PolygonRing::from).collect()`
+                if is_agg(r) and len(r[4]) == 2 and not lp:
+                    kb = [v for k, v in r[4] if v[0] == 'proj' and v[1] == ('param', 1) and len(v[2]) == 1]
+                    cm = [v for k, v in r[4] if v[0] == 'collect' and v[1][0] == 'map' and v[1][1][0] == 'into_iter'
+                          and v[1][1][1][0] == 'proj' and v[1][1][1][1] == ('param', 1) and len(v[1][1][1][2]) == 1]
+                    if len(kb) == 1 and len(cm) == 1:
+                        fmap = cm[0][1][2]
+                        ok_map = fmap[0] == 'fnitem' and (fmap[4] or fmap[3]) == f["def"]
+                        if fmap[0] == 'closure':
+                            g_ = F.fns.get(fmap[1])
+                            qs = absint.Interp(F, inline=lambda g, t: False).run(g_) if g_ else []
+                            ok_map = bool(qs) and all(
+                                len([e for e in q.eff if e[0] == 'call' and (e[2] or e[1]) == f["def"] and e[3] and e[3][0] == ('param', 2)]) == 1
+                                and q.ret == [e for e in q.eff if e[0] == 'call' and (e[2] or e[1]) == f["def"]][0][-1] for q in qs)
+                        if not ok_map:
+                            good = False
+                        continue
                 # the polygon returned is {the rings pushed in the loop, untouched afterwards; the box of the polyline, as stored}
                 kept_box = [v for k, v in (r[4] if is_agg(r) else ()) if v[0] == 'proj' and v[1] == ('param', 1) and len(v[2]) == 1]
                 pushed = [v for k, v in (r[4] if is_agg(r) else ()) if v[0] == 'lv']
